@@ -96,6 +96,14 @@ def builtin(I, name, args, kwargs, st, node):
             return a0.copy(regions=["F"], oid=None)
         e = I.iterate(a0, node, st, quiet=True)
         return AV(kinds=["dict"], regions=["F"], elem=(e.fields or {}).get(1, e.elem), keys=(e.fields or {}).get(0))
+    if name in ("map", "filter") and len(args) >= 2:
+        e = I.iterate(args[1], node, st)
+        if name == "map":
+            r = I.apply(a0, [e], {}, st, node) if "func" in a0.kinds else e
+            return AV(kinds=["list"], regions=["F"], elem=r)
+        if "func" in a0.kinds:
+            I.apply(a0, [e], {}, st, node)
+        return AV(kinds=["list"], regions=["F"], elem=e)
     if name == "enumerate":
         e = I.iterate(a0, node, st)
         return AV(kinds=["list"], regions=["F"], elem=AV(kinds=["tuple"], elem=join(NUM, e), fields={0: NUM, 1: e}))
